@@ -4,7 +4,7 @@
    functions of Model.v that the theorems of Properties.v are about.  Kept apart from
    Properties.v so that a broken fact does not take the hand theorems down. *)
 From Common Require Import Prelude.
-From C15 Require Import Model Proofs ProofsCodec ProofsInto FactsModel FactsCheck.
+From C15 Require Import Model Proofs ProofsCodec ProofsFixed ProofsInto ProofsLife FactsModel FactsCheck.
 From C15.gen Require Import Facts.
 Local Open Scope Z_scope.
 
@@ -85,3 +85,17 @@ Theorem src_string_read_is_model : forall old r,
   exec_strread gen_str_read 0 (old_bytes old) r = get SStr r.
 Proof. exact FactsCheck.src_string_read_is_model. Qed.
 Print Assumptions src_string_read_is_model.
+
+(* FixedArrayView's constructor gives the view its own share of the allocation (init list of the
+   member [data], FixedArray's storage is a shared_ptr): the lifetime model runs with own = true *)
+Theorem src_view_owns_share :
+  fav_owns gen_fav_init gen_fav_ptr gen_fixedarray_shared_storage = true /\
+  forall st op, l_step (fav_owns gen_fav_init gen_fav_ptr gen_fixedarray_shared_storage) st op = l_step true st op.
+Proof. exact FactsCheck.src_view_owns_share. Qed.
+Print Assumptions src_view_owns_share.
+
+Theorem src_written_view_is_model :
+  gen_wview_from_buffer = true /\
+  forall w, fetch (f_bytes w) (seval (fenv w None 0) gen_wview_off) (seval (fenv w None 0) gen_wview_size) = fbw_view w.
+Proof. exact FactsCheck.src_written_view_is_model. Qed.
+Print Assumptions src_written_view_is_model.
